@@ -92,7 +92,7 @@ def has_unbounded(n):
 def program(draw, *, faults=False, members=False, maxdepth=2, max_leaves=6, limit="maybe",
             dd_tocks=(0.0,), always_ok=False, forever_ok=True, enter_ret=True, max_steps=6,
             start_tymes=(0.0, 0.0, 1.0, 10.5, 0.1), tocks=None, kinds=None, restrict_yields=None,
-            split_yields=False, dd_odds=2, force_always=False):
+            split_yields=False, dd_odds=2, force_always=False, prerun_ok=False):
     tock = draw(st.sampled_from(tocks or TOCKS))
     npool = draw(st.integers(1, 3)) if members else 0
     ys = None
@@ -120,6 +120,9 @@ def program(draw, *, faults=False, members=False, maxdepth=2, max_leaves=6, limi
             # None: start tyme given to the constructor; a number: the scheduler is constructed at that other tyme and the
             # start tyme is passed to do() / ado()
             "ctor_tyme": draw(st.sampled_from([None, None, None, 0.0, 10.0, 3.25])),
+            # optionally the doer objects have been run before under another scheduler (re-use)
+            "prerun": draw(st.sampled_from([None, None, None, {"tyme": 7.0, "limit": 2.5}, {"tyme": 0.5, "limit": 1.0}]))
+            if prerun_ok else None,
             "doers": doers, "pool": pool}
 
 
